@@ -47,9 +47,6 @@ type refineCfg struct {
 
 var stretchPoints = []string{"CloseEnter", "ClosedPre", "ClosedPost", "CasClosingOK", "WgCloseMu", "RwcClosed", "CloseRcvd"}
 
-// stretch is the per-connection table the tracer's gate consults.
-var stretch sync.Map // conn id -> refineCfg
-
 func runRefine(cfg refineCfg, rep *Report) {
 	rng := rand.New(rand.NewSource(cfg.Seed))
 	c, raw, err := ws.NewConn(cfg.Client, "off", 0)
@@ -58,8 +55,8 @@ func runRefine(cfg refineCfg, rep *Report) {
 	}
 	ws.LogPeerScripted(c)
 	if cfg.Stretch != "" {
-		stretch.Store(websocket.VerifConnID(c), cfg)
-		defer stretch.Delete(websocket.VerifConnID(c))
+		ws.Stretch(c, cfg.Stretch, time.Duration(cfg.StretchUS)*time.Microsecond)
+		defer ws.Unstretch(c)
 	}
 	slow := time.Duration(0)
 	if cfg.Ctx {
@@ -231,13 +228,7 @@ func init() {
 		rep := newReport("refine")
 		tr := &ws.Tracer{}
 		tr.Install()
-		tr.Gate = func(e websocket.VerifEvent) {
-			if v, ok := stretch.Load(e.Conn); ok {
-				if cfg := v.(refineCfg); cfg.Stretch == e.Ev {
-					time.Sleep(time.Duration(cfg.StretchUS) * time.Microsecond)
-				}
-			}
-		}
+		tr.Gate = ws.StretchGate
 		sem := make(chan struct{}, *par)
 		var wg sync.WaitGroup
 		for i := 0; i < *n; i++ {
